@@ -63,12 +63,31 @@ static void s_saveload(Ctx& c, Out& o) {
   if (!o.model) snprintf(o.err, sizeof(o.err), "NULL return");
 }
 static void s_copyspec(Ctx& c, Out& o) { o.spec = mj_copySpec(c.spec); o.status = o.spec ? 0 : 1; if (!o.spec) snprintf(o.err, sizeof(o.err), "NULL return"); }
+static mjModel* g_rc_model = nullptr;   // the objects handed to mj_recompile (inspected after a failure, see check_recompile_leftovers)
+static mjData* g_rc_data = nullptr;
 static void s_recompile(Ctx& c, Out& o) {
   mjModel* m = c.model; mjData* d = c.data;
+  g_rc_model = m; g_rc_data = d;
   c.model = nullptr; c.data = nullptr;     // documented: on failure mj_recompile deletes the given model and data
   o.status = mj_recompile(c.spec, nullptr, m, d);
   if (o.status) snprintf(o.err, sizeof(o.err), "%s", mjs_getError(c.spec));
-  else { c.model = m; c.data = d; }
+  else { c.model = m; c.data = d; g_rc_model = nullptr; g_rc_data = nullptr; }
+}
+// after a failed in-place rebuild the given mjData/mjModel structs may still be live (the failure left the function through the error
+// channel before the documented deletion): whatever is left must not hold pointers to blocks that were already released, because the
+// only thing a caller can still do with such an object is to delete it (a dangling buffer/arena pointer then means a double free)
+extern "C" int vf_alloc_is_live(void* p);
+static void check_recompile_leftovers(const char* tag, long k) {
+  if (g_rc_data && vf_alloc_is_live(g_rc_data)) {
+    if (g_rc_data->buffer && !vf_alloc_is_live(g_rc_data->buffer)) FAIL("%s k=%ld: live mjData left with a dangling buffer pointer after the failed rebuild", tag, k);
+    if (g_rc_data->arena && !vf_alloc_is_live(g_rc_data->arena)) FAIL("%s k=%ld: live mjData left with a dangling arena pointer after the failed rebuild", tag, k);
+    printf("LEFTOVER %s k=%ld live-mjData-after-failed-rebuild\n", tag, k);
+  }
+  if (g_rc_model && vf_alloc_is_live(g_rc_model)) {
+    if (g_rc_model->buffer && !vf_alloc_is_live(g_rc_model->buffer)) FAIL("%s k=%ld: live mjModel left with a dangling buffer pointer after the failed rebuild", tag, k);
+    printf("LEFTOVER %s k=%ld live-mjModel-after-failed-rebuild\n", tag, k);
+  }
+  g_rc_model = nullptr; g_rc_data = nullptr;
 }
 static void s_step(Ctx& c, Out& o) { for (int i = 0; i < 3; i++) mj_step(c.model, c.data); mj_forward(c.model, c.data); mj_inverse(c.model, c.data); }
 static void s_scene(Ctx& c, Out& o) { mjv_defaultScene(&o.scn); o.scn_made = true; mjv_makeScene(c.model, &o.scn, 500); }
@@ -138,6 +157,8 @@ static long run_once(const Scen& s, const std::string& xml, const std::string& p
       printf("OUTCOME %s k=%ld absorbed\n", tag, fail_k);
     }
   }
+  if (nf > 0) check_recompile_leftovers(tag, fail_k);
+  else { g_rc_model = nullptr; g_rc_data = nullptr; }
   // delete everything the scenario produced (when an error was trapped the engine's own objects that were
   // under construction are lost by contract - that is exactly what the leak accounting below measures)
   if (o.data) mj_deleteData(o.data);
